@@ -1,7 +1,7 @@
 import os
 import sys
 
-from ckl.errors import CklRuntimeError
+from ckl.errors import CklRuntimeError, CklSyntaxError
 from ckl.parser import parse_script
 from ckl.functions import (
     get_base_environment,
@@ -52,7 +52,15 @@ class Interpreter:
                 environment_.withParent(self.environment)
             env = environment
         try:
-            result = parse_script(script, filename).evaluate(env)
+            node = parse_script(script, filename)
+            try:
+                result = node.evaluate(env)
+            except (CklRuntimeError, CklSyntaxError):
+                raise
+            except Exception as e:
+                raise CklRuntimeError(
+                    ValueString("ERROR"), f"{type(e).__name__}: {e}", node.pos
+                )
             if result.isReturn():
                 return result.value
             elif result.isBreak():
